@@ -36,12 +36,12 @@ RULE = ("(a) cases: (line sequence chunk, configuration); one execution per data
 ASSUMPTIONS = ["finite value alphabets", "output paths are always fresh (the library prompts before overwriting)"]
 REQUIRED_CLASSES = ['ineligible-line-skipped', 'all-eligible', 'selector-cuts', 'without-model-fluxes', 'with-model-fluxes', 'mode-2d', 'mode-3d', 'format-v2', 'history-depth-2',
                     'form-path', 'form-object', 'form-list', 'op-plot', 'op-filter_output', 'op-write_parameters', 'op-write_parameter_ranges', 'op-extract_parameters',
-                    'nan-inf-record-roundtrip', 'longer-file', 'law-in-other-unit', 'op-plot_params_1d', 'op-plot_params_2d', 'op-plot-convolved', 'no-trailing-newline', 'selector-keeps-nothing', 'data-as-open-file']
+                    'nan-inf-record-roundtrip', 'longer-file', 'law-in-other-unit', 'op-plot_params_1d', 'op-plot_params_2d', 'op-plot-convolved', 'no-trailing-newline', 'selector-keeps-nothing', 'data-as-open-file', 'single-model-package', 'duplicate-source-names', 'record-without-fits-handed-on']
 TIMEOUT = {'quick': 900, 'thorough': 3600}
 
 KINDS = {'A': (1, 1, 1), 'B': (1, 4, 3), 'C': (1, 0, 9), 'D': (0, 2, 3)}
 B3 = ['B1', 'B3', 'B5']
-AXES_A = {'n_data_min': [2, 1, 3], 'sel': [('A', 0), ('N', 2), ('F', 3.0), ('N', 0), ('C', 1e-6)], 'conv': [True, False], 'fmt': ['v1', 'v2'], 'mode': ['2d', '3d'], 'law': ['power', 'nonmono@nm']}
+AXES_A = {'n_data_min': [2, 1, 3], 'sel': [('A', 0), ('N', 2), ('F', 3.0), ('N', 0), ('C', 1e-6)], 'conv': [True, False], 'fmt': ['v1', 'v2'], 'mode': ['2d', '3d'], 'law': ['power', 'nonmono@nm'], 'n_models': [5, 1]}
 SELS_B = [('N', 1), ('N', 3), ('A', 0), ('F', 2.0)]
 
 
@@ -59,9 +59,9 @@ def setup(tier, seed):
     out.append({'part': 'a', 'cfg': dict(next(iter(deviation_bounded(AXES_A, 0)))), 'seqs': long_seqs, 'long': True})
     depth = 2 if tier == 'quick' else 3
     for fmt in ('v2',):
-        for n_src in (1, 3):
-            for first in range(19):
-                out.append({'part': 'b', 'fmt': fmt, 'n_src': n_src, 'first_op': first, 'depth': depth})
+        for n_src in (1, 3, 2):
+            for first in range(19 if n_src != 2 else 17):
+                out.append({'part': 'b', 'fmt': fmt, 'n_src': n_src, 'first_op': first, 'depth': depth, 'zero_fit_record': (n_src == 2)})
     out.append({'part': 'c'})
     for n_src in (1, 3):
         for fname in ('plot_params_1d', 'plot_params_2d'):
@@ -128,25 +128,32 @@ def _part_a(ctx, case, rec, d):
     rec.cls('mode-' + mode)
     if fmt == 'v2':
         rec.cls('format-v2')
-    names = fc.names_for(5)
+    nm_ = cfg.get('n_models', 5)
+    names = fc.names_for(nm_)
+    if nm_ == 1:
+        rec.cls('single-model-package')
     k = fc.law_k(cfg.get('law', 'power'), [fc.BAND_WAV[b] for b in B3])
     if cfg.get('law', 'power') != 'power':
         rec.cls('law-in-other-unit')
     if mode == '2d':
-        f = fc.grid2d(seed * 10 + 13, n_models=5, bands=B3, special=False)
+        f = fc.grid2d(seed * 10 + 13, n_models=5, bands=B3, special=False)[:nm_]
         md = fc.build_package(d, 'pkg', {'fmt': fmt, 'names': names, 'bands': B3, 'flux': f})
-        base = f[2] * 10 ** (1.2 * k) * 3.0
+        base = f[min(2, nm_ - 1)] * 10 ** (1.2 * k) * 3.0
     else:
         ap, t = fc.grid3d(seed * 10 + 14, n_models=5, n_ap=3, bands=B3)
+        t = t[:nm_]
         md = fc.build_package(d, 'pkg', {'fmt': fmt, 'names': names, 'bands': B3, 'apertures': ap, 'tables': t, 'logd_step': 0.25})
-        base = t[2][:, 1] * 10 ** (1.2 * k) * 0.5
+        base = t[min(2, nm_ - 1)][:, 1] * 10 ** (1.2 * k) * 0.5
     law = fc.law_object(cfg.get('law', 'power'))
     kw = dict(extinction_law=law, av_range=[0.0, 6.0], distance_range=np.array([0.5, 4.0]) * u.kpc)
     theta = np.ones(3) * u.arcsec
     ref_fitter = Fitter(list(B3), theta, md, **kw)
     ckey = tuple(sorted((kk, str(v)) for kk, v in cfg.items()))
     for si, seq in enumerate(case['seqs']):
-        lines = [_line('s%02d_%s' % (i, kd), kd, base, i, seed) for i, kd in enumerate(seq)]
+        # every third file repeats a source name (two lines may well carry the same name)
+        lines = [_line('s%02d_%s' % ((i if (si % 3 or i == 0) else i - 1), kd) if si % 3 == 0 and False else ('s%02d' % (i // 2 if si % 3 == 0 else i)), kd, base, i, seed) for i, kd in enumerate(seq)]
+        if si % 3 == 0 and len(seq) >= 2:
+            rec.cls('duplicate-source-names')
         srcs = [Source.from_ascii(l) for l in lines]
         elig = [s for s in srcs if sum(1 for v in s.valid if v in (1, 4)) >= cfg['n_data_min']]
         if not elig:
@@ -193,8 +200,8 @@ def _part_a(ctx, case, rec, d):
             rec.violation('fit()|records-vs-eligible-lines', sub, {'records': [r.source.name for r in recs], 'eligible': [s.name for s in elig], 'n_data_min': cfg['n_data_min']})
             continue
         bad = None
-        for r, s in zip(recs, elig):
-            e = ref_fitter.fit(s)
+        held = [ref_fitter.fit(s) for s in elig]          # the object interface, all results held before any is looked at
+        for r, s, e in zip(recs, elig, held):
             if not cfg['conv']:
                 e.model_fluxes = None
             n_before = len(e.chi2)
@@ -278,6 +285,9 @@ def _part_b(ctx, case, rec, d):
     fitter = pc.fitter_for(md)
     srcs = pc.sources(pk, seed, n_sources=case['n_src'])
     ops = _ops()
+    if case.get('zero_fit_record'):
+        # filter_output splits by each source's best chi^2: a record without fits has none (outside C18's quantifier too)
+        ops = [o for o in ops if o[0] != 'filter_output']
     base_infos = pc.fit_all(fitter, srcs)
     chis = sorted(float(np.asarray(i.chi2, float)[0]) for i in base_infos)
     thr = {'chi': (0.5 * (chis[0] + chis[-1]) if len(chis) > 1 else chis[0] * 2) + 1e-3, 'cpd': chis[0] * 0.9 / 4 + 1e-4}
@@ -285,6 +295,9 @@ def _part_b(ctx, case, rec, d):
 
     def fresh(form, tag):
         infos = pc.fit_all(fitter, srcs)
+        if case.get('zero_fit_record'):
+            infos[1].keep(('N', 0))          # a record without fits, as fit() writes it when its selector keeps nothing for a source
+            rec.cls('record-without-fits-handed-on')
         if form == 'path':
             p = pc.write_file(os.path.join(d, tag + '.fitinfo'), infos)
             return p, ('path', p)
